@@ -473,6 +473,11 @@ pub fn gen_donate_lp(w: &World, s: &mut Src, _prof: &Profile) -> Step {
     let holder = hs.iter().find(|h| w.cw20_balance(pr.lp.as_str(), h.as_str()) > 0).cloned().unwrap_or_else(|| hs[0].clone());
     let bal = w.cw20_balance(pr.lp.as_str(), holder.as_str());
     let amt = amount(s, bal).max(1);
+    if s.chance(1, 4) {
+        // the holder destroys its own LP tokens at the LP token contract: the supply shrinks without any
+        // pair operation, which only raises the value of everybody else's share
+        return Step { sender: holder.to_string(), call: Call::Cw20 { token: pr.lp.to_string(), msg: Cw20ExecuteMsg::Burn { amount: Uint128::new(amt) } }, funds: vec![] };
+    }
     let to = if s.bool() { pr.addr.to_string() } else { who(w, s) };
     Step { sender: holder.to_string(), call: Call::Cw20 { token: pr.lp.to_string(), msg: Cw20ExecuteMsg::Transfer { recipient: to, amount: Uint128::new(amt) } }, funds: vec![] }
 }
